@@ -7,7 +7,8 @@
 verus! {
 /// `ds`: (db, key) -> abstract value. `ttl`: the keys that carry a time-to-live, with the duration (ns) asked for when it was set
 /// (only the contracts of the TTL-aware methods further down speak about `ttl`; remaining time is the engine's business, C02 shard units)
-pub struct EngineModel { pub ds: Ghost<DS>, pub ttl: Ghost<Map<(int, Seq<u8>), int>> }
+/// `z`: members and scores of the sorted sets (the dataset value DV::ZSet itself carries no content)
+pub struct EngineModel { pub ds: Ghost<DS>, pub ttl: Ghost<Map<(int, Seq<u8>), int>>, pub z: Ghost<Map<(int, Seq<u8>), Map<Seq<u8>, f64>>> }
 pub open spec fn wt() -> FerrousError { FerrousError::Storage(StorageError::WrongType) }
 pub open spec fn dv_of(v: Value) -> DV {
     match v {
